@@ -43,6 +43,7 @@ type TranRec struct {
 	HasUpdates   bool
 	StepLo       int // scheduler step before the start call
 	StepHi       int // scheduler step after the start call returned
+	DoneStep     int // scheduler step at which Complete() returned
 	Snapshot     *db19.DbState
 	committed    bool
 	wroteSomeRow bool
@@ -190,6 +191,7 @@ func (x *exec) runTran(ci, si int, s Tran) {
 	}
 	if !tr.Aborted && !tr.ExplAbort {
 		tr.Complete = ut.Complete()
+		tr.DoneStep = vsched.Steps()
 	}
 	tr.Start, tr.End = ut.VerifStartEnd()
 	tr.HasUpdates = ut.VerifHasUpdates()
@@ -440,7 +442,8 @@ func (x *exec) Finish(out vsched.Outcome) (string, *sched.Failure) {
 	if x.or.Atomic || x.or.MergePersist || x.or.Serializable {
 		// every published state equals a model prefix, monotonically
 		k := 0
-		for _, ps := range x.states {
+		prefixOf := make([]int, len(x.states))
+		for si, ps := range x.states {
 			found := -1
 			for j := k; j < len(models); j++ {
 				if models[j].Canon() == ps.canon {
@@ -454,6 +457,47 @@ func (x *exec) Finish(out vsched.Outcome) (string, *sched.Failure) {
 					ps.step, ps.canon, k, canonList(models[k:]))}
 			}
 			k = found
+			prefixOf[si] = found
+		}
+		// truthful outcome: once Complete() returned "" the transaction's writes are
+		// in the current state and in every later one
+		if x.or.Atomic {
+			j := 0
+			for _, tr := range cs {
+				if !wrote(tr) {
+					continue
+				}
+				j++ // tr is the j-th committed writer: contained in models[j] and later
+				cur := -1
+				for si, ps := range x.states {
+					if ps.step <= tr.DoneStep {
+						cur = si
+					}
+				}
+				have := 0
+				if cur >= 0 {
+					have = prefixOf[cur]
+				}
+				// states equal as content to an earlier prefix may also equal a later one
+				// (e.g. a transaction that restores a row): accept if ANY prefix >= j matches
+				ok := have >= j
+				if !ok && cur >= 0 {
+					for jj := j; jj < len(models); jj++ {
+						if models[jj].Canon() == x.states[cur].canon {
+							ok = true
+						}
+					}
+				}
+				if !ok {
+					canon := x.init.Canon()
+					if cur >= 0 {
+						canon = x.states[cur].canon
+					}
+					return obs.String(), &sched.Failure{Msg: fmt.Sprintf(
+						"Complete() of %s returned success at step %d but the database state current at that moment (%s) does not contain its writes",
+						tr, tr.DoneStep, canon)}
+				}
+			}
 		}
 		if want := models[len(models)-1].Canon(); finalContent.Canon() != want {
 			return obs.String(), &sched.Failure{Msg: fmt.Sprintf(
